@@ -1,5 +1,6 @@
 import Driver.Util
 import LiquidVerif.Model.UndefKind
+import LiquidVerif.Model.FilterRegistry
 open Lean LiquidVerif.UndefKind
 
 /-! Line protocol for C16.
@@ -104,6 +105,19 @@ def handleRender (args : List Json) : Json :=
     | _, _, _ => jerr "bad-case"
   | _ => jerr "bad-args"
 
+/-- `["c16renderlax", kind, data, [stmt…]]` → `{"ok": out}`: top-level atomic nodes under `Mode.LAX` -/
+def handleRenderLax (args : List Json) : Json :=
+  match args with
+  | [.str kind, data, stmts] =>
+    match kindOf kind, dataOf data, (asArr? stmts).bind (mapM? stmtOf) with
+    | some k, some (.dict g), some ss =>
+      if ss.all Stmt.atomic then
+        Json.mkObj [("ok", jstr (renderLax builtinFilters k
+          { scopes := [], locals := [], globals := g.map (fun kv => (kv.1, Val.data kv.2)) } ss).2)]
+      else jerr "not-atomic"
+    | _, _, _ => jerr "bad-case"
+  | _ => jerr "bad-args"
+
 def pokeOf : String → Option Poke
   | "str" => some .str | "iter" => some .iter | "len" => some .len | "getitem" => some .getitem
   | "contains" => some .contains | "int" => some .int | "hash" => some .hash | "reversed" => some .reversed
@@ -122,7 +136,45 @@ def handlePoke (args : List Json) : Json :=
     | _, _ => jerr "bad-case"
   | _ => jerr "bad-args"
 
+def allKinds : List Kind := [.dflt, .strict, .falsy, .strictDefault]
+
+partial def dataJson : Data → Json
+  | .nil => Json.null
+  | .bool b => Json.bool b
+  | .int i => jint i
+  | .str s => jstr s
+  | .list xs => jarr (xs.map dataJson)
+  | .dict kvs => Json.mkObj [("d", jarr (kvs.map fun kv => jarr [jstr kv.1, dataJson kv.2]))]
+
+def raisePattern (ps : List Poke) : Json := jarr (allKinds.map fun k => Json.bool (pokesRaise k ps))
+
+/-- `["c16shape", filter name, input candidates, [argument candidates…]]` → the row of `shapeOf` for that filter:
+    which kinds raise `UndefinedError` on an undefined left value / on each positional argument, and whether the plain
+    value the operand stands for is among the candidates the implementation accepts (`null` when it stands for none) -/
+def handleShape (args : List Json) : Json :=
+  match args with
+  | [.str name, inCands, argCands] =>
+    match LiquidVerif.UndefKind.filterByName name with
+    | none => jerr "unknown-filter"
+    | some n =>
+      let sh := shapeOf n
+      let cands (j : Json) : List Json := (asArr? j).getD []
+      let inAs : Json := match sh.inUndef with
+        | .conv d => Json.bool ((cands inCands).any (fun c => c.compress == (dataJson d).compress))
+        | _ => Json.null
+      let ac := cands argCands
+      let argRows := (sh.args.zip (List.range sh.args.length)).map fun (o, i) =>
+        Json.mkObj [("raises", raisePattern o.pokes),
+                    ("as", match ac[i]? with
+                      | some c => Json.bool ((cands c).any (fun x => x.compress == (dataJson o.asData).compress) || o.pokes.isEmpty)
+                      | none => Json.null)]
+      Json.mkObj [("input", raisePattern sh.inPokes),
+                  ("inKind", jstr (match sh.inUndef with | .conv _ => "conv" | .self => "self" | .arg _ => "arg" | .fail => "fail")),
+                  ("inAs", inAs), ("min", jnat sh.minArgs), ("args", jarr argRows),
+                  ("special", Json.bool (n.name == "default"))]
+  | _ => jerr "bad-args"
+
 def commands : List (String × (List Lean.Json → Lean.Json)) :=
-  [("c16render", handleRender), ("c16poke", handlePoke)]
+  [("c16render", handleRender), ("c16renderlax", handleRenderLax), ("c16poke", handlePoke), ("c16shape", handleShape)]
 
 end Driver.C16
